@@ -31,6 +31,7 @@ fixed('C02', 'F29', '25816b3', 'MaskedUMNNAutoregressiveTransform with integrand
 fixed('C16', 'F29', '25816b3', 'same input: gradient w.r.t. the inputs NaN (log of a zero derivative)')
 fixed('C19', 'F30', 'c321ed1', 'linear_spline(inverse=True) in float32 with a bin whose mass is below the resolution of the cdf (unnormalised pdf entries ~18 apart): input on that bin (e.g. exactly the upper end / tail bound) -> NaN output, inf log-abs-det (slopes were differences of the cumulative sums)')
 fixed('C17', 'F30', 'c321ed1', 'PiecewiseLinearCouplingTransform(tails=linear).inverse at y = tail bound in float32 returned NaN for conditioner outputs ~18 apart')
+fixed('C19', 'F31', 'd9050ee', 'PointwiseAffineTransform(shift=1, scale=2) (integer arguments): int64 buffers are not converted by .double(), so a float64 model on float64 inputs returned its log-abs-det in float32 (log of an integer tensor), 1e-8 off the float64 value')
 fixed('C19', 'F28', '1d63aad', 'Tanh().forward(x) in float32 with |x| >= 9.1 (float64: |x| >= 19.1): log-abs-det = log(1 - tanh(x)**2) = -inf although the float64 / exact value (-16.6 at x = 9) is representable')
 fixed('C01', 'F28', '1d63aad', 'Tanh forward log-abs-det -inf once tanh(x) rounds to one (|x| >= 19.1 in float64): not log|det J| = -2|x| + log 4 + ...')
 fixed('C19', 'F17', 'eea16c3', 'linear_spline inverse built float32 bin boundaries for float64 inputs')
